@@ -36,6 +36,11 @@ FAULTS = [
     ("wrong-literal-type-negative", ("string",), ("str", "abc"), "-1", "-1"),
     ("wrong-range-type-negative", ("string",), ("str", "abc"), "-5..=-1", "-5..=-1"),
     ("missing-like-impl-call", ("int", "i32"), ("int", 3), '=~ String::from("x")', 'String::from("x")'),
+    ("missing-like-impl-sum", ("int", "i32"), ("int", 3), "=~ 1 + 2", "1 + 2"),
+    ("missing-like-impl-cast", ("int", "i32"), ("int", 3), "=~ 7 as u64", "7 as u64"),
+    ("missing-like-impl-range", ("int", "i32"), ("int", 3), "=~ 1..5", "1..5"),
+    ("missing-like-impl-paren", ("int", "i32"), ("int", 3), "=~ (5)", "(5)"),
+    ("missing-like-impl-ref", ("int", "i32"), ("int", 3), "=~ &5", "&5"),
     ("wrong-map-key-type-negative", ("map", ("string",), ("int", "i32")), ("map", [("str", "k")], [("int", 1)]), '#{ -5: 1 }', "-5"),
 ]
 STRUCT_FAULTS = [
